@@ -49,7 +49,7 @@ ALPHA = 1e-9
 def budgets(tier):
     # draws for fast samplers, for mesh samplers, attempt cap for generic composite samplers
     # (+ the same two numbers for composite samplers one of whose operands is mesh-based: ~20-50 ms per attempt)
-    return (2500, 120, 1600, 120, 220) if tier == "quick" else (20000, 300, 14000, 300, 600)
+    return (1500, 90, 1000, 90, 160) if tier == "quick" else (20000, 300, 14000, 300, 600)
 
 
 def plan(tier, seed):
@@ -314,10 +314,15 @@ def check_sampler(mon, R, O, tier, rng, label, op=None, extra=None):
     if ref is None or len(ref) < 1000:
         mon.skip("no_oracle_reference_sample")
         return
-    if len(P) < 120:
+    if len(P) < 90:
         mon.skip("too_few_draws_for_uniformity")
         return
-    kcells = int(min(32, max(2, len(P) // 60)))
+    if (O.member(ref[:2000]) == -1).mean() > 0.05:
+        # e.g. a planar operand lying exactly in a face plane of a voxel grid: membership of the whole set is
+        # within the margin, the reference sample is not trustworthy
+        mon.skip("reference_sample_ill_conditioned")
+        return
+    kcells = int(min(32, max(2, len(P) // 45)))
     assign = ro.kd_cells(ref, kcells)
     cr, ncell = assign(ref)
     cp, _ = assign(P)
